@@ -12,6 +12,10 @@ use common::*;
 
 fn main() {
     let args: Vec<String> = std::env::args().collect();
+    if args.len() >= 2 && args[1] == "--worker" {
+        c20::worker_loop();
+        return;
+    }
     if args.len() < 2 || args[1] != "C20" {
         eprintln!("usage: harness-c20 C20 [--tier T] [--seed N] [--model-bin P] [--out F] [--replay F] [--group G] [--cases N]");
         std::process::exit(2);
